@@ -490,9 +490,9 @@ func c14Aliasing(c *fw.Ctx, env types.EnvType, r *rand.Rand, id string) {
 				}
 			}
 		case canon.Map:
-			srcs = []string{"base", "(merge base {})", "(merge {} base)", "(dissoc (assoc base :zz 1) :zz)", "(with-meta base {:m 1})", "(assoc base :zz nil)", "(conj base :zz nil)", "(rename-keys base {})", "(dissoc base :a)", "(apply hash-map (apply concat (map (fn (k) (list k (get base k))) (keys base))))"}
+			srcs = []string{"base", "(merge base {})", "(hash-map)", "{}", "(dissoc {:q 1} :q)", "[(hash-map)]", "[{}]", "{:m (hash-map)}", "{:m {}}", "(merge nil (hash-map))", "(merge {} base)", "(dissoc (assoc base :zz 1) :zz)", "(with-meta base {:m 1})", "(assoc base :zz nil)", "(conj base :zz nil)", "(rename-keys base {})", "(dissoc base :a)", "(apply hash-map (apply concat (map (fn (k) (list k (get base k))) (keys base))))"}
 		case canon.Set:
-			srcs = []string{"base", "(set (seq base))", "(dissoc (conj base :zz) :zz)", "(with-meta base {:m 1})", "(conj base :zz)", "(set (vec base))"}
+			srcs = []string{"base", "(set (seq base))", "(set nil)", "(hash-set)", "(set [])", "#{}", "(dissoc (hash-set :q) :q)", "[(set nil)]", "[#{}]", "{:s (set nil)}", "{:s #{}}", "{:s (hash-set)}", "(dissoc (conj base :zz) :zz)", "(with-meta base {:m 1})", "(conj base :zz)", "(set (vec base))"}
 		}
 		var vals []types.MalType
 		var kept []string
